@@ -56,9 +56,13 @@ impl Scenario for Inbound {
         if tier != "thorough" {
             v = vec![json!({"split": [3]}), json!({"split": [1, 1, 1]})];
         }
+        v.push(json!({"split": [1, 2], "cuts": 12}));
         v
     }
-    fn bound(&self, tier: &str, _p: &Value) -> usize {
+    fn bound(&self, tier: &str, p: &Value) -> usize {
+        if p["cuts"].is_u64() {
+            return if tier == "thorough" { 2 } else { 1 };
+        }
         if tier == "thorough" {
             3
         } else {
@@ -93,6 +97,10 @@ impl Scenario for Inbound {
         let mut cfg = EnvConfig::default();
         cfg.deliver_cuts = true;
         cfg.time = false;
+        if p["cuts"].is_u64() {
+            // many cut positions per delivery (incl. inside the 7-byte frame header)
+            cfg.deliver_cut_limit = p["cuts"].as_u64().unwrap() as usize;
+        }
         Built {
             broker: Box::new(broker),
             cfg,
